@@ -582,6 +582,7 @@ func (x *Exec) newRef(st *State, hint string) *Term {
 	st.Assume(&Term{S: def.S, Sort: SBool, Def: r.S})
 	st.allocs = append(st.allocs, r)
 	st.setClass(r, refFresh)
+	x.setRoot(r, r.S)
 	return r
 }
 
@@ -712,6 +713,9 @@ func (x *Exec) nameTerm(st *State, t *Term, hint string) *Term {
 	}
 	if st.stack[t.S] {
 		st.markStack(c)
+	}
+	if rt, ok := x.refRoot[t.S]; ok {
+		x.setRoot(c, rt)
 	}
 	return c
 }
